@@ -662,6 +662,10 @@ class World(BaseWorld):
                     judge(H.remove_ancilla_from_solution(s), "minimiser of the penalised model", "minimiser_not_feasible_optimal")
             except (OverflowError, ValueError):
                 self.probe("table_skipped")
+        if orphan:
+            # (model too large for steps 1-2) converted solutions cannot assign a constraint-only variable: K1's root cause
+            self.discarded = "constraint_only_variable"
+            return ["workflow", "orphan"]
         if self.fork_mode:
             self.probe("fork_workflow_checked")
             return ["workflow", "fork", str(opt)]
@@ -760,7 +764,10 @@ def shrink_op(op):
     for key in ("terms", "P"):
         if key in op and len(op[key]) > 1:
             for i in range(len(op[key])):
-                out.append(dict(op, **{key: op[key][:i] + op[key][i + 1:]}))
+                cand = dict(op, **{key: op[key][:i] + op[key][i + 1:]})
+                if key == "P" and op.get("bounds"):
+                    cand["bounds"] = None        # recorded bounds are enclosures of the ORIGINAL polynomial only
+                out.append(cand)
     if op.get("op") == "cons":
         if op.get("bounds"):
             out.append(dict(op, bounds=None))
@@ -768,5 +775,5 @@ def shrink_op(op):
             out.append(dict(op, lam=1))
         for i, (k, v) in enumerate(op["P"]):
             if v not in (1, -1):
-                out.append(dict(op, P=op["P"][:i] + [[k, 1 if v > 0 else -1]] + op["P"][i + 1:]))
+                out.append(dict(op, P=op["P"][:i] + [[k, 1 if v > 0 else -1]] + op["P"][i + 1:], bounds=None))
     return out
